@@ -1,6 +1,16 @@
 # per-property claim texts used by mk_manifest.py
 NA = {}
 CLAIMS = {
+ 'C15': {
+  'technique': 'Coq proofs by structural induction over module trees on validator predicates, walks, fixers and make_private guards regenerated from opacus/validators; real validate / fix / make_private runs on generated trees with a per-layer independence probe',
+  'text': ('PARTIAL. On rose trees of torch.nn layers (flags: owns trainable parameter, owns parameters, track_running_stats, training) with the walk predicate, the registered validators, the '
+           'fixers and the make_private guard order generated from the sources: validate t = 0 implies training mode and no batch-coupling / statistics-keeping layer, for every tree whose '
+           'coupling layers own a trainable parameter (the full statement is FALSE of the code: Findings/C15.v, four recorded findings -- BatchNorm(affine=False), frozen BatchNorm, InstanceNorm '
+           'with running stats and no trainable parameter); make_private succeeds only for valid training-mode trees and the model\'s own parameters; validate(fix t) = 0 for every training-mode '
+           'tree and fixer option; fix is the identity on trees without visited fixable layers. Real ModuleValidator / GradSampleModule / PrivacyEngine are run on generated trees (nested containers, '
+           'replaceable roots, frozen / eval / affine / track flags, fixer keyword options): acceptance vs a behavioural probe of every layer (row independence, buffer updates), argument '
+           'mutation, object sharing, parameter preservation, replacement set, LSTM / MHA replacement equivalence; error counts and replacement counts are compared with the generated model.'),
+ },
  'C19': {
   'technique': 'Coq proof on an attribute/hook ledger whose write- and remove-lists are regenerated from the grad_sample package (written subset of removed; unwrap restores the ledger for every activity sequence); real wrap/train/unwrap runs with before/after object snapshots',
   'text': ('PARTIAL. The translator collects EVERY attribute assignment on parameters / modules in opacus/grad_sample/*.py and everything to_standard_module deletes (del_grad_sample, '
